@@ -82,6 +82,9 @@ def check_tokens(r, w, root, fi, ps):
                     good = removed or not chosen
                 if not good and rec['ok']:
                     rec.update(ok=False, pa=pa, msg=f'cancel loop over `{e.iter}` has guard kind `{e.guard}`: it does not cancel exactly the tokens not chosen')
+                if e.d.get('raises_on') == 'success' and rec['ok']:
+                    rec.update(ok=False, pa=pa, msg=f'the cancel loop over `{e.iter}` raises when a cancellation *succeeds* (the check of the result is inverted): '
+                                                    f'the node crashes the first time it has a second reservation to withdraw')
                 if not e.recv.endswith('.resourcename') and rec['ok']:
                     rec.update(ok=False, pa=pa, msg=f'cancellation goes to `{e.recv}`, not to the store that issued the token (`<token>.resourcename`)')
     for key, rec in sorted(tok_sites.items()):
